@@ -97,6 +97,18 @@ func ToLowerFirst(str string) string {
 	return string(unicode.ToLower(r)) + str[n:]
 }
 
+// FirstRunes returns the first [n] characters of [s] (or [s] if it is shorter).
+// Contrary to s[:n], it never cuts a multi-byte character.
+func FirstRunes(s string, n int) string {
+	for i := range s {
+		if n == 0 {
+			return s[:i]
+		}
+		n--
+	}
+	return s
+}
+
 // SQLTableName uses a familiar SQL convention for table names,
 // shared by generator/sql and generator/go/sqlcrud
 func SQLTableName(name sql.TableName) string {
